@@ -3,6 +3,9 @@
   Property theorems about M_gc (`Model/Gc.lean`).  Helper lemmas live in `Lemmas/`.
 -/
 import SodiumVerif.Lemmas.GcBasic
+import SodiumVerif.Lemmas.GcLoop
+import SodiumVerif.Lemmas.GcScriptInv
+import SodiumVerif.Lemmas.GcDtor
 
 namespace SodiumVerif
 namespace Gc
@@ -23,5 +26,215 @@ theorem incRef_count (g : State) (n : Nat) (h : (g.node n).freed = false) :
 
 example : ((incRef (newNode {}).1 0).node 0).rc = 2 := by decide
 
+/-! ### soundness of a collection -/
+
+/-- **C08 (soundness).**  From a state satisfying the invariant `GcInv` (the client respected the
+    collector's contract `traced = owned`, counts cover the counted references, no walk is in
+    progress), a whole collection — assuming only that the fuel of the model sufficed, which is
+    proved separately —
+    * does not panic,
+    * frees no object reachable (along counted references) from an unfreed object with an
+      external handle; such objects keep their edge lists and stay reachable,
+    * re-establishes `GcInv`, with both buffers empty,
+    * leaves the number of external handles `ext = rc - inCount` of every object unchanged
+      (the counts stay exact), and allocates nothing. -/
+theorem collect_sound (g : State) (I : GcInv g) (ho : (collectCycles g).oof = false) :
+    let g' := collectCycles g
+    g'.panic = none ∧
+    (∀ r i, (g.nodes.get r).freed = false → 0 < ext g r → Reach g r i →
+      (g'.nodes.get i).freed = false ∧ (g'.nodes.get i).owned = (g.nodes.get i).owned ∧
+        Reach g' r i) ∧
+    GcInv g' ∧ (g'.roots = [] ∧ g'.toBeFreed = []) ∧
+    (∀ i, ext g' i = ext g i) ∧ g'.nextId = g.nextId := by
+  intro g'
+  obtain ⟨P, hr⟩ := collectLoop_spec (g.nextId + 2) g I ho
+  have hP : Passes g g' := P
+  refine ⟨hP.inv.noPanic, fun r i hfr he p => ?_, hP.inv, ⟨hr, hP.inv.tbf⟩, hP.ext I, hP.nextId⟩
+  have hl : Live g i := ⟨r, hfr, he, p⟩
+  have hfi := hP.live i hl
+  refine ⟨hfi, (hP.mono i hfi).2, ?_⟩
+  -- the path survives: every object on it is live
+  induction p with
+  | refl => exact .refl r
+  | @step b c pb hb hc ih =>
+    have hb' := hP.live b ⟨r, hfr, he, pb⟩
+    refine .step (ih ⟨r, hfr, he, pb⟩ hb') hb' ?_
+    rw [(hP.mono b hb').2]; exact hc
+
+/-- the same, read backwards: whatever a collection frees was unreachable from every externally
+    held object -/
+theorem collect_frees_only_garbage (g : State) (I : GcInv g) (ho : (collectCycles g).oof = false)
+    (i : Nat) (h0 : (g.nodes.get i).freed = false)
+    (h1 : ((collectCycles g).nodes.get i).freed = true) :
+    ∀ r, (g.nodes.get r).freed = false → 0 < ext g r → ¬ Reach g r i := by
+  intro r hr he p
+  have := ((collect_sound g I ho).2.1 r i hr he p).1
+  rw [h1] at this; cases this
+
+/-- counts stay exact: after a collection the count of every object is its external handles
+    plus the counted references from unfreed objects -/
+theorem collect_counts_exact (g : State) (I : GcInv g) (ho : (collectCycles g).oof = false)
+    (i : Nat) :
+    ((collectCycles g).nodes.get i).rc = ext g i + inCount (collectCycles g) i := by
+  obtain ⟨_, _, I', _, he, _⟩ := collect_sound g I ho
+  rw [← he i]
+  exact (I'.ext_add i).symm
+
+/-- one pass already has these properties (`PassOk`), and so has any number of passes -/
+theorem onePass_sound (g : State) (I : GcInv g) (ho : (onePass g).oof = false) :
+    Passes g (onePass g) := (onePass_spec I ho).passes I
+
+/-- **C06 (destructor runs once).**  Every operation of the model keeps `DtorOnce`; in particular
+    a collection does, from any state whatsoever. -/
+theorem collect_dtor_once (g : State) (h : DtorOnce g) : DtorOnce (collectCycles g) :=
+  dtorOnce_collectCycles h
+
+/-! ### non-vacuity -/
+
+/-- two objects in a cycle, both handles dropped -/
+def exCycle : State :=
+  let g := (newNode {}).1
+  let g := (newNode g).1
+  let g := addEdge g 0 1
+  let g := addEdge g 1 0
+  decRef (decRef g 0) 1
+
+theorem exCycle_inv : GcInv exCycle := by
+  have h0 := gcinv_newNode (gcinv_newNode gcinv_init)
+  have h1 := gcinv_addEdge (a := 0) (b := 1) h0 (by decide) (by decide) (by decide) (by decide)
+  have h2 := gcinv_addEdge (a := 1) (b := 0) h1 (by decide) (by decide) (by decide) (by decide)
+  have h3 := gcinv_decRef_handle (n := 0) h2 (by decide) (by decide)
+  exact gcinv_decRef_handle (n := 1) h3 (by decide) (by decide)
+
+/-- the hypotheses of `collect_sound` hold for the garbage cycle, and it is collected -/
+example : GcInv exCycle ∧ (collectCycles exCycle).oof = false ∧
+    ((collectCycles exCycle).nodes.get 0).freed = true ∧
+    ((collectCycles exCycle).nodes.get 1).freed = true ∧
+    (collectCycles exCycle).dtorLog = [1, 0] :=
+  ⟨exCycle_inv, by decide, by decide, by decide, by decide⟩
+
+/-- a garbage cycle `0 ⇄ 1` next to a cycle `2 ⇄ 3` of which `2` is still held -/
+def exMixed : State :=
+  let g := (newNode {}).1
+  let g := (newNode g).1
+  let g := (newNode g).1
+  let g := (newNode g).1
+  let g := addEdge g 0 1
+  let g := addEdge g 1 0
+  let g := addEdge g 2 3
+  let g := addEdge g 3 2
+  let g := addEdge g 0 3
+  decRef (decRef (decRef g 0) 1) 3
+
+theorem exMixed_inv : GcInv exMixed := by
+  have h0 := gcinv_newNode (gcinv_newNode (gcinv_newNode (gcinv_newNode gcinv_init)))
+  have h1 := gcinv_addEdge (a := 0) (b := 1) h0 (by decide) (by decide) (by decide) (by decide)
+  have h2 := gcinv_addEdge (a := 1) (b := 0) h1 (by decide) (by decide) (by decide) (by decide)
+  have h3 := gcinv_addEdge (a := 2) (b := 3) h2 (by decide) (by decide) (by decide) (by decide)
+  have h4 := gcinv_addEdge (a := 3) (b := 2) h3 (by decide) (by decide) (by decide) (by decide)
+  have h5 := gcinv_addEdge (a := 0) (b := 3) h4 (by decide) (by decide) (by decide) (by decide)
+  have h6 := gcinv_decRef_handle (n := 0) h5 (by decide) (by decide)
+  have h7 := gcinv_decRef_handle (n := 1) h6 (by decide) (by decide)
+  exact gcinv_decRef_handle (n := 3) h7 (by decide) (by decide)
+
+/-- object `2` has an external handle and reaches `3`; the collection frees `0`, `1` only, and
+    the count of `3` drops by the reference the freed object `0` held -/
+example : GcInv exMixed ∧ (collectCycles exMixed).oof = false ∧
+    (exMixed.nodes.get 2).freed = false ∧ 0 < ext exMixed 2 ∧ Reach exMixed 2 3 ∧
+    ((collectCycles exMixed).nodes.get 0).freed = true ∧
+    ((collectCycles exMixed).nodes.get 1).freed = true ∧
+    ((collectCycles exMixed).nodes.get 2).freed = false ∧
+    ((collectCycles exMixed).nodes.get 3).freed = false ∧
+    (exMixed.nodes.get 3).rc = 2 ∧ ((collectCycles exMixed).nodes.get 3).rc = 1 :=
+  ⟨exMixed_inv, by decide, by decide, by decide,
+   .step (.refl 2) (by decide) (by decide), by decide, by decide, by decide, by decide, by decide,
+   by decide⟩
+
+example : DtorOnce (collectCycles {}) := collect_dtor_once _ dtorOnce_init
+
 end Gc
+
+/-! ### the whole protocol -/
+
+namespace GcScript
+open Gc
+
+/-- states a contract-respecting client can reach (collections assumed not to run out of the
+    model's fuel) -/
+inductive Reachable : St → Prop
+  | init : Reachable {}
+  | step {s s' : St} {op : Op} : Reachable s → op.good →
+      (op = .collect → (collectCycles s.g).oof = false) → apply s op = some s' → Reachable s'
+
+/-- **C08 at the protocol level.**  Whatever sequence of `new / inc / dec / edge / unedge /
+    updrop / collect` operations a client performs, the collector never panics, its invariant
+    holds, and every object the client holds a handle on is allocated, not freed, and its count
+    covers the handles. -/
+theorem script_sound {s : St} (h : Reachable s) :
+    GcInv s.g ∧ s.g.panic = none ∧
+    ∀ a, 0 < s.handles.get a →
+      a < s.g.nextId ∧ (s.g.nodes.get a).freed = false ∧ s.handles.get a ≤ ext s.g a := by
+  have J : ScriptInv s := by
+    induction h with
+    | init => exact scriptInv_init
+    | step _ hop hf ha ih => exact script_step ih hop hf ha
+  exact ⟨J.inv, J.inv.noPanic, J.held⟩
+
+instance : DecidablePred Op.good := fun op => by
+  cases op <;> unfold Op.good <;> infer_instance
+
+/-- run a script, skipping inapplicable operations (as `step` does) -/
+def runOps (s : St) : List Op → St
+  | [] => s
+  | op :: rest =>
+    match apply s op with
+    | some s' => runOps s' rest
+    | none => runOps s rest
+
+/-- no collection of the run exhausts the model's fuel (computable; `Lemmas/GcFuel` shows it
+    always holds) -/
+def fuelOk (s : St) : List Op → Bool
+  | [] => true
+  | op :: rest =>
+    (if op = .collect then !(collectCycles s.g).oof else true) &&
+    match apply s op with
+    | some s' => fuelOk s' rest
+    | none => fuelOk s rest
+
+theorem reachable_runOps : ∀ (ops : List Op) (s : St), Reachable s → (∀ op ∈ ops, op.good) →
+    fuelOk s ops = true → Reachable (runOps s ops) := by
+  intro ops
+  induction ops with
+  | nil => intro s h _ _; exact h
+  | cons op rest ih =>
+    intro s h hg hf
+    simp only [fuelOk, Bool.and_eq_true] at hf
+    unfold runOps
+    cases ha : apply s op with
+    | none =>
+      simp only [ha] at hf ⊢
+      exact ih s h (fun o ho => hg o (List.mem_cons_of_mem _ ho)) hf.2
+    | some s' =>
+      simp only [ha] at hf ⊢
+      refine ih s' (.step h (hg op List.mem_cons_self) (fun e => ?_) ha)
+        (fun o ho => hg o (List.mem_cons_of_mem _ ho)) hf.2
+      have := hf.1
+      rw [if_pos e] at this
+      simpa using this
+
+/-- non-vacuity: the run `new new edge 0 1 edge 1 0 dec 0 collect` is reachable; it keeps object
+    `1` (still held) and object `0` (reachable from `1`), and empties the candidate buffer -/
+example :
+    let s := runOps {} [.new, .new, .edge 0 1, .edge 1 0, .dec 0, .collect]
+    Reachable s ∧ s.handles.get 1 = 1 ∧ (s.g.nodes.get 0).freed = false ∧ s.g.roots = [] :=
+  ⟨reachable_runOps _ _ .init (by decide) (by decide), by decide, by decide, by decide⟩
+
+/-- … and after dropping the last handle the cycle is collected -/
+example :
+    let s := runOps {} [.new, .new, .edge 0 1, .edge 1 0, .dec 0, .dec 1, .collect]
+    Reachable s ∧ (s.g.nodes.get 0).freed = true ∧ (s.g.nodes.get 1).freed = true ∧
+      s.g.panic = none :=
+  ⟨reachable_runOps _ _ .init (by decide) (by decide), by decide, by decide, by decide⟩
+
+end GcScript
 end SodiumVerif
